@@ -530,7 +530,11 @@ impl VxToString for u64 { open spec fn dview(&self) -> Seq<char> { int_text(*sel
 impl VxToString for usize { open spec fn dview(&self) -> Seq<char> { int_text(*self as int) } #[verifier::external_body] fn vx_string(&self) -> (r: String) { self.to_string() } }
 impl VxToString for i32 { open spec fn dview(&self) -> Seq<char> { int_text(*self as int) } #[verifier::external_body] fn vx_string(&self) -> (r: String) { self.to_string() } }
 /// `Vec<String>::join(sep)`
-pub uninterp spec fn join_spec(v: Seq<String>, sep: Seq<char>) -> Seq<char>;
+pub open spec fn join_spec(v: Seq<String>, sep: Seq<char>) -> Seq<char>
+    decreases v.len()
+{
+    if v.len() == 0 { Seq::<char>::empty() } else if v.len() == 1 { v[0]@ } else { join_spec(v.drop_last(), sep) + sep + v.last()@ }
+}
 pub trait VxJoinStrings { fn vx_join(&self, sep: &str) -> (r: String); }
 impl VxJoinStrings for Vec<String> { #[verifier::external_body] fn vx_join(&self, sep: &str) -> (r: String) ensures r@ == join_spec(self@, sep@) { self.join(sep) } }
 /// `format!("{SPEC}", x)` for a format spec whose rendering is not modelled ({:03}, {:.2}, ...): some string
